@@ -58,6 +58,9 @@ struct Conn {
     peer_ip: IpAddr,
     header: Header,
     login: bool,
+    /// the client hangs up right after its handshake (a port scan, a health check, an impatient
+    /// player): the visit counts like any other
+    abort: bool,
 }
 
 #[derive(Clone, Debug)]
@@ -155,7 +158,7 @@ fn generate(cli: &Cli) -> Vec<Seq> {
                     }
                 },
             };
-            conns.push(Conn { peer_ip, header, login: rng.chance(1, 6) });
+            conns.push(Conn { peer_ip, header, login: rng.chance(1, 6), abort: rng.chance(1, 7) });
         }
         // health-check style connections (valid header without an address) are charged to the TCP
         // peer like any other: limit + 2 of them in a row from one peer
@@ -163,7 +166,7 @@ fn generate(cli: &Cli) -> Vec<Seq> {
             let peer: IpAddr = "127.0.0.3".parse().expect("ip");
             for k in 0..limit + 2 {
                 let header = if v2 && (!v1 || k % 2 == 0) { Header::V2Local } else { Header::V1Unknown };
-                conns.push(Conn { peer_ip: peer, header, login: false });
+                conns.push(Conn { peer_ip: peer, header, login: false, abort: false });
             }
         }
         let burst = if i % 4 != 3 {
@@ -229,6 +232,15 @@ async fn one_connection(server: SocketAddr, c: &Conn, proxy: Option<(bool, bool)
         }
         end.send(s);
     }
+    if c.abort {
+        end.send(&scripts::handshake(1, "adm.example.org", 25565, 770).frame());
+        tokio::time::sleep(Duration::from_millis(60)).await;
+        let log = vp_sim::client::ClientLog::default();
+        end.kill();
+        // give the listener a moment to notice the hang-up (and do whatever it does about it)
+        tokio::time::sleep(Duration::from_millis(60)).await;
+        return Ok((end, log));
+    }
     let mut secret = [0u8; 16];
     Rng::new(secret_seed).fill(&mut secret);
     let plan = if c.login {
@@ -281,6 +293,13 @@ async fn run_seq(seq: &Seq) -> SeqOutcome {
                     bad(format!("served-without-valid-header/{hc}"), format!("a connection with a {hc} PROXY header received {got_bytes} bytes"), json!({"index": i}));
                 }
                 // must not consume budget: nothing is counted in the model
+            }
+            Some(eff) if c.abort => {
+                // counted like any other visit; what it was answered is not looked at
+                let n = admitted.entry(eff.ip()).or_insert(0);
+                if *n < seq.limit {
+                    *n += 1;
+                }
             }
             Some(eff) => {
                 let n = admitted.entry(eff.ip()).or_insert(0);
@@ -356,7 +375,7 @@ async fn run_seq(seq: &Seq) -> SeqOutcome {
                 Some(_) => Header::V2(s),
             };
             // without PROXY the effective address is the peer: use an otherwise unused loopback alias
-            let c = Conn { peer_ip: if seq.proxy.is_none() { "127.0.0.77".parse().expect("ip") } else { "127.0.0.1".parse().expect("ip") }, header, login: false };
+            let c = Conn { peer_ip: if seq.proxy.is_none() { "127.0.0.77".parse().expect("ip") } else { "127.0.0.1".parse().expect("ip") }, header, login: false, abort: false };
             let addr = direct.addr;
             let proxy = seq.proxy;
             futs.push(async move { one_connection(addr, &c, proxy, 1000 + k as u64).await });
@@ -430,7 +449,7 @@ async fn config_wiring(report: &mut Report) {
             let src: SocketAddr = src.parse().expect("addr");
             let allowed = if version == 1 { allow_v1 } else { allow_v2 };
             for k in 0..3 {
-                let c = Conn { peer_ip: "127.0.0.1".parse().expect("ip"), header: if version == 1 { Header::V1(src) } else { Header::V2(src) }, login: false };
+                let c = Conn { peer_ip: "127.0.0.1".parse().expect("ip"), header: if version == 1 { Header::V1(src) } else { Header::V2(src) }, login: false, abort: false };
                 let Ok((end, log)) = one_connection(addr, &c, Some((allow_v1, allow_v2)), 7000 + k).await else {
                     report.inconclusive(&format!("{name}: connect failed"));
                     continue;
@@ -458,7 +477,7 @@ async fn config_wiring(report: &mut Report) {
             // the budget of both sources is used up; half a second later the window of 40 s is still open
             tokio::time::sleep(Duration::from_millis(500)).await;
             let src: SocketAddr = "198.51.100.20:40001".parse().expect("addr");
-            let c = Conn { peer_ip: "127.0.0.1".parse().expect("ip"), header: Header::V2(src), login: false };
+            let c = Conn { peer_ip: "127.0.0.1".parse().expect("ip"), header: Header::V2(src), login: false, abort: false };
             if let Ok((end, log)) = one_connection(addr, &c, Some((allow_v1, allow_v2)), 7100).await {
                 let served = log.count("StatusResponse") > 0;
                 end.kill();
@@ -532,7 +551,7 @@ async fn config_file_wiring(report: &mut Report) {
         let mut trace = vec![];
         for (version, expect) in [(1, expect_v1), (2, expect_v2)] {
             let src: SocketAddr = format!("198.51.100.{}:40000", 30 + version).parse().expect("addr");
-            let c = Conn { peer_ip: "127.0.0.1".parse().expect("ip"), header: if version == 1 { Header::V1(src) } else { Header::V2(src) }, login: false };
+            let c = Conn { peer_ip: "127.0.0.1".parse().expect("ip"), header: if version == 1 { Header::V1(src) } else { Header::V2(src) }, login: false, abort: false };
             // the header kinds are built for a listener that allows both; what is allowed is the question
             let Ok((end, log)) = one_connection(addr, &c, Some((true, true)), 7200 + version as u64).await else {
                 report.inconclusive(&format!("config/{name}: connect failed"));
